@@ -152,13 +152,17 @@ def run(prop, tier, replay_file=None, extra=None):
         by = collect_cases(P[tier], rep)
     ntraces = nevents = ncases = nrej = nchanged = ntie = 0
     nfail = {}
-    allres = []
+    nruns = 0
     samples = []
-    for dialect, cases in by.items():
+    # bounded chunks: results (traces) of a chunk are validated and dropped before the next one is planned,
+    # so the thorough tiers do not keep millions of events in memory
+    CH = int(os.environ.get("VERIF_CHUNK", "25000"))
+    work = [(d, cs[i:i + CH]) for d, cs in by.items() for i in range(0, len(cs), CH)]
+    for dialect, cases in work:
         byid = {c["id"]: c for c in cases}
         res = F.run_cases(bins, dialect, cases, P["mode"])
         ncases += len(cases)
-        allres += res
+        nruns += sum(r.get("nruns", 0) for r in res)
         ntie += sum(1 for c in cases if c.get("tie"))
         rej = [r for r in res if r["rejected"]]
         nrej += len(rej)
@@ -227,7 +231,7 @@ def run(prop, tier, replay_file=None, extra=None):
             ", ".join(sorted({F.DIALECTS[d]["trace"] for d in by})), ntraces),
     })
     if P["mode"] == "det":
-        rep.cov["evaluations"] = sum(r.get("nruns", 0) for r in allres)
+        rep.cov["evaluations"] = nruns
         rep.cov["distinct_nontrivial"] = ntie
         rep.cov["rule"] = ("inputs enumerated by TLC (families above); every input is planned 4 times, tie-bearing inputs "
                            "(HasTie in the generator: several identical object-groups on the device) 12 times in separate "
